@@ -16,6 +16,7 @@ pub mod c14;
 pub mod c15;
 pub mod c16;
 pub mod c17;
+pub mod c19;
 
 pub const ALL: [&str; 19] = [
     "C01", "C02", "C03", "C04", "C05", "C06", "C07", "C08", "C09", "C10", "C11", "C12", "C13", "C14",
@@ -40,6 +41,7 @@ pub fn get(id: &str, tier: Tier) -> Option<CheckDef> {
         "C15" => c15::def(tier),
         "C16" => c16::def(tier),
         "C17" => c17::def(tier),
+        "C19" => c19::def(tier),
         _ => return None,
     })
 }
